@@ -43,6 +43,10 @@ def build(rng, facts, name):
     if rng.random() < 0.5: b.kclear("kk")
     for v in rand_values(rng, rng.choice([2, 6, 30]), -2, 2): b.kadd("kk", v, rng.choice([None, 2.0, 0.75]))
     b.emit("kpobs PP", ("same", jpp)); b.emit("kpmarshal mb2 PP", "ok"); b.emit("kpunmarshal PP2 mb2", "ok"); b.emit("kpobs PP2", ("same", jpp))
+    # rebuilding has no memory: a message of the same kind and base with another offset rebuilt just before does not leak into this one
+    fsp = facts[spec]; sib = "%s:g:%s:%s" % (fsp["kind"], f2h(fsp["gamma"]), f2h(fsp["off"] + rng.choice([7.25, -3.5])))
+    b.knew("ks", sib, "sparse", "sparse"); b.kadd("ks", 1.5); b.emit("ktoproto Ps ks", "ok"); b.emit("kfromproto rs Ps sparse", "ok")
+    b.emit("kfromproto r P sparse", "ok"); b.emit("kobs r", expect_decoded(j0, "sparse", loose=arbitrary))
     # FromProto = the default (paginated) store provider
     b.emit("kfromproto r P default", "ok"); b.emit("kobs r", expect_decoded(j0, "pag", loose=arbitrary))
     return b
